@@ -957,10 +957,15 @@ pub fn c12(rec: &mut Rec, rng: &mut Rng, thorough: bool) {
         let mut pending: Vec<usize> = vec![]; // tokens that arrived and were not handed over yet
         let mut all: Vec<(usize, i32)> = vec![]; // (token, fd)
         let mut ok = true;
+        // the schedule as executed (chunk, descriptors, errno before it), for the pop-timing comparison below
+        let mut sched: Vec<(Vec<u8>, usize, Option<i32>)> = vec![];
         for ch in &chunks {
             // now and then a read finds nothing (would-block / interrupted) while descriptors are on hand: they stay
+            let mut errno_before = None;
             if i % 3 == 1 && rng.chance(1, 4) {
-                d.rerr(rec, *rng.pick(&[libc::EAGAIN, libc::EINTR]));
+                let e = *rng.pick(&[libc::EAGAIN, libc::EINTR]);
+                d.rerr(rec, e);
+                errno_before = Some(e);
                 rec.count("c12:empty-read-between");
             }
             let nf = match rng.below(10) {
@@ -972,6 +977,7 @@ pub fn c12(rec: &mut Rec, rng: &mut Rng, thorough: bool) {
                 }
             };
             let before_next = d.tokens.next;
+            sched.push((ch.clone(), nf, errno_before));
             let rs = d.recv(rec, ch, nf);
             // tokens created by this recv, in arrival order
             let new_tokens: Vec<usize> = (before_next..d.tokens.next).collect();
@@ -1050,6 +1056,27 @@ pub fn c12(rec: &mut Rec, rng: &mut Rng, thorough: bool) {
             rec.oracle_fail("C12", "a descriptor stayed open after the connection was dropped", &d.log);
         }
         rec.count(&format!("fds:{}", match all.len() { 0 => "0", 1..=5 => "1-5", 6..=50 => "6-50", _ => ">50" }));
+        // WHEN the application pops must not matter: the same reads with the pops delayed (a completed request waits in
+        // the queue while later reads bring more descriptors) hand every request the same descriptors
+        if i % 4 == 2 && !all.is_empty() {
+            let reference: Vec<(String, Vec<usize>)> = d.delivered.iter().map(|x| (x.text_nofiles.clone(), x.files.clone())).collect();
+            let mut d2 = ConnDriver::new(rec, 51200);
+            for (ch, nf, e) in &sched {
+                if let Some(e) = e {
+                    d2.rerr(rec, *e);
+                }
+                d2.recv(rec, ch, *nf);
+                if rng.chance(1, 4) {
+                    d2.pop(rec);
+                }
+            }
+            d2.popall(rec);
+            let late: Vec<(String, Vec<usize>)> = d2.delivered.iter().map(|x| (x.text_nofiles.clone(), x.files.clone())).collect();
+            if late != reference {
+                rec.oracle_fail("C12", &format!("with delayed pops the requests carry descriptors {:?}, popping after every read {:?}", late.iter().map(|x| x.1.clone()).collect::<Vec<_>>(), reference.iter().map(|x| x.1.clone()).collect::<Vec<_>>()), &d2.log);
+            }
+            rec.count("c12:delayed-pops");
+        }
     }
 }
 
